@@ -315,6 +315,7 @@ fn hist_opts(mark_all: bool) -> GraphOpts {
         mega: false,
         symlinks: false,
         read_above: true,
+        scratch_dir: false,
     }
 }
 
